@@ -557,6 +557,16 @@ example : (SendGate.run (SendGate.init true 1)
 theorem send_gate_facts :
     Generated.C11.sendRechecksUnderLock = true ∧ Generated.C11.kexInitClearsBeforeWrite = true := by decide
 
+/-- **What the "peer ignores our request" test counts** (AST of `Packetizer.read_message`, read on every run): the
+packets and bytes received *since the request* (`received_*_overflow`), against the overflow allowances — not the
+epoch totals that raised the request in the first place.  With the shipped 1:1 ratio of REKEY_BYTES and
+REKEY_BYTES_OVERFLOW_MAX a test on the epoch total would drop every peer at the first packet after a
+received-bytes-triggered request, in-flight data and the peer's own KEXINIT included. -/
+theorem overflow_tests_count_from_the_request :
+    Generated.C11.overflowTests =
+      [("received_packets_overflow", "REKEY_PACKETS_OVERFLOW_MAX"),
+       ("received_bytes_overflow", "REKEY_BYTES_OVERFLOW_MAX")] := by decide
+
 end Gate
 
 end PV.Props.C11
